@@ -253,7 +253,8 @@ func (d *Decoder) readTypedList(tag byte) (interface{}, error) {
 		}
 
 		if item == nil {
-			break
+			// a null element leaves the zero value in place
+			continue
 		}
 
 		v := EnsureRawValue(item)
